@@ -351,6 +351,14 @@ func handles(t *rapid.T, i *keys.Info) (priv, pub *keyset.Handle) {
 
 // usePrimitive obtains the class primitive through the public factory and does one round trip.
 func usePrimitive(t *rapid.T, i *keys.Info) {
+	if i.FailsAt == keys.FailsTooLarge {
+		// works in principle, never used: the segment size is at int32's ceiling.  Only the metadata.
+		seg, _ := i.Fields["segment_size"].(int)
+		if i.Usable || i.Class != keys.Streaming || seg <= keys.MaxUsableSegmentSize {
+			t.Fatalf("%s: FailsTooLarge on a key with segment size %d", i, seg)
+		}
+		return
+	}
 	h, pubH := handles(t, i)
 	// The key type's own primitive constructor (no legacy key-manager fallback) must agree with the
 	// metadata: it accepts exactly the usable keys and those that only fail at use.
